@@ -26,6 +26,12 @@ fn point_step<G: AffineRepr>(name: &str, p: &G) -> Step {
 
 /// Expected main-transcript schedule of an honest run of `prog` (prover or verifier).
 pub fn expected_steps<G: AffineRepr>(prog: &Program, commitments: &[G], parts: &Parts<G>) -> Vec<Step> {
+    let order: Vec<usize> = (0..prog.closures.len()).collect();
+    expected_steps_ordered(prog, commitments, parts, &order)
+}
+
+/// As `expected_steps`, with the closures in the order the subject actually invoked them.
+pub fn expected_steps_ordered<G: AffineRepr>(prog: &Program, commitments: &[G], parts: &Parts<G>, order: &[usize]) -> Vec<Step> {
     let mut s = vec![];
     let any = |name: &str| Step::Append { name: name.to_string(), payloads: vec![] };
     s.push(any("dom-sep:application label"));
@@ -51,7 +57,8 @@ pub fn expected_steps<G: AffineRepr>(prog: &Program, commitments: &[G], parts: &
     }
     s.push(any(if prog.closures.is_empty() { "dom-sep:1phase" } else { "dom-sep:2phase" }));
     let mut zc = 0;
-    for body in &prog.closures {
+    for ci in order {
+        let body = &prog.closures[*ci];
         for op in body {
             match op {
                 Op::Z => {
